@@ -442,7 +442,10 @@ def _emit_item(it: Item, spell=None, derives=None, tyspell=None) -> str:
         lines.append("#[ts(optional_fields = nullable)]")
     if it.export_to is not None:
         lines.append(f"#[ts(export_to = {rs_str(it.export_to)})]")
-    if it.concrete:
+    if it.concrete and getattr(it, "concrete_split", False):
+        for k, v in it.concrete.items():
+            lines.append(f"#[ts(concrete({k} = {v}))]")
+    elif it.concrete:
         inner = ", ".join(f"{k} = {v}" for k, v in it.concrete.items())
         lines.append(f"#[ts(concrete({inner}))]")
     lines.extend(it.extra_attrs)
@@ -736,6 +739,20 @@ class Gen:
             f.inline = True
         return f
 
+    def skip_tuple_fields(self, fields, tags):
+        """now and then some, or all, fields of a tuple are skipped (serde then emits a shorter sequence, `[]` for none left)"""
+        if len(fields) < 2 or self.r.random() >= self.p.p_attr * 0.2:
+            return
+        everything = self.r.random() < 0.5
+        for f in fields:
+            if everything or self.r.random() < 0.4:
+                f.ty = self.leaf()          # a skipped field needs Default
+                if f.ty.kind == "prim" and f.ty.name != "char" or f.ty.kind in ("opt", "vec"):
+                    f.inline = False
+                    f.skip = True
+        if all(f.skip for f in fields):
+            tags.append("k:tuple-all-fields-skipped")
+
     # -- items ------------------------------------------------------------------------------
     def new_item(self, kind):
         n = self.n()
@@ -772,6 +789,7 @@ class Gen:
         elif kind == "tuple":
             k = self.r.choice([0, 2, 2, 3])
             it.fields = [self.unnamed_field(it.params, d) for _ in range(k)]
+            self.skip_tuple_fields(it.fields, it.tags)
         elif kind == "named":
             k = self.r.choice([0, 1, 2, 2, 3, 3, 4])
             used = set()
@@ -851,6 +869,7 @@ class Gen:
             elif vk == "tuple":
                 n = self.r.choice([0, 2, 2, 3])
                 v.fields = [self.unnamed_field(it.params, d) for _ in range(n)]
+                self.skip_tuple_fields(v.fields, v.tags)
             elif vk == "struct":
                 # (ts-rs rejects rename_all / rename_all_fields on a struct variant without fields)
                 n = self.r.choice([0, 1, 2, 2, 3]) if not it.rename_all_fields else self.r.choice([1, 2, 2, 3])
